@@ -32,7 +32,7 @@ ENGINES = ['A']
 FUNCTIONS = ['MultiVector.__getitem__/__setitem__/itermv/shape', 'reflected operator methods (__radd__, __rsub__, __rmul__, __rtruediv__, __rxor__, __ror__, __rand__, __rrshift__, __rmatmul__)',
              'OperatorDict._call_binary (callable unwrapping, list/tuple mapping, scalar wrapping)', 'generated functions on object arrays']
 ASSUMPTIONS = ['array entries are reals held in object ndarrays / lists of object arrays', 'native numpy dtypes: concrete sampling only (plumbing)']
-BOUNDS = {'quick': 'algebras R2, R1,1, 2D-PGA, R3; trailing shapes (3,), (2,3); 9 index forms; all 9 infix operators x both sides x {number, list, tuple, callable, nested}',
+BOUNDS = {'quick': 'algebras R2, R1,1, 2D-PGA, R3; trailing shapes (3,), (2,3); 9 index forms; all 9 infix operators x both sides x {number, list, tuple, callable, nested}; assignment through multivectors with coefficients of different rank (multivector and number values); keepdims-shaped assignment values',
           'thorough': 'more operators/patterns per shape, 3DPGA'}
 BOUNDS['quick'] += '; operands with different numbers of trailing axes ((n,2) against (2,), n = number of blades and n+1)'
 OUTSIDE = ['element-wise arithmetic of native-dtype numpy arrays (numpy C code, trusted)', 'shapes beyond 2 trailing axes']
